@@ -28,6 +28,7 @@ ASSUMPTIONS = [
     "exp/log laws are hypotheses of the theorems (LogLaws), instantiated by Real.exp/Real.log on the reals with -inf adjoined",
     "cases whose linear-space run under/overflows (np.errstate raise, or a positive value below 1e-250) are excluded, as the property states",
     "maximization is compared up to numerically tied scores (relative gap below 1e-9)",
+    "shared-prior sequences (log->lin, lin->log, log->log->lin) are run on a subset of the inputs (12 quick / 150 thorough)",
 ]
 RTOL = 1e-9
 TINY = 1e-250
@@ -63,11 +64,13 @@ def linear_guard(ts, priors, mu, eps):
     return True, ""
 
 
-def api_run(ts, priors, mu, eps, space, method, kw):
+def api_run(ts, priors, mu, eps, space, method, kw, shared=False):
+    """shared=False: a fresh copy of the prior object per call; shared=True: the caller's object itself
+    (tsdate converts it in place, so later calls see what earlier calls left behind)."""
     import tsdate
     from .. import dating
     dating.quiet()
-    pr = dc.clone_priors(priors)
+    pr = priors if shared else dc.clone_priors(priors)
     f = tsdate.inside_outside if method == "inside_outside" else tsdate.maximization
     try:
         out = f(ts, mutation_rate=mu, priors=pr, eps=eps, probability_space=space, return_fit=True,
@@ -162,6 +165,96 @@ def compare_spaces(ts, priors, mu, eps, method, kw, replay, res, stats):
     return ok
 
 
+SEQUENCES = [(dc.LOG, dc.LIN), (dc.LIN, dc.LOG), (dc.LOG, dc.LOG, dc.LIN)]
+TAG = {dc.LIN: "lin", dc.LOG: "log"}
+
+
+def same_result(a, b, method):
+    if method == "inside_outside":
+        pa, pb = a["post"], b["post"]
+        return (np.array_equal(np.isnan(pa), np.isnan(pb)) and np.allclose(pa[~np.isnan(pa)], pb[~np.isnan(pb)], rtol=RTOL, atol=1e-13)
+                and np.allclose(a["times"], b["times"], rtol=1e-8, atol=1e-9) and dc.close(a["lik"], b["lik"], rtol=1e-9, atol=1e-9))
+    return np.array_equal(a["mean"], b["mean"]) and dc.close(a["lik"], b["lik"], rtol=1e-9, atol=1e-9)
+
+
+def sequence_oracle(ts, priors, mu, eps, replay_base, res, stats, seqrecs):
+    """Runs on ONE shared prior object in several orders (log->linear, linear->log, log->log->linear), for
+    inside_outside and maximization: every step must give what a fresh prior object gives in that space.
+    Also records the object's probability_space tag and data after every step (for the model correspondence)."""
+    for method in ("inside_outside", "maximization"):
+        kw = dict(outside_standardize=True) if method == "inside_outside" else {}
+        fresh = {sp: api_run(ts, priors, mu, eps, sp, method, kw) for sp in (dc.LIN, dc.LOG)}
+        if not all(f["ok"] for f in fresh.values()):
+            continue
+        for seq in SEQUENCES:
+            shared = dc.clone_priors(priors)
+            rec = dict(tag0=TAG[shared.probability_space], grid0=shared.grid_data.copy(), seq=[TAG[x] for x in seq], steps=[])
+            name = "->".join(TAG[x] for x in seq)
+            stats["sequences"][name] = stats["sequences"].get(name, 0) + 1
+            for k, sp in enumerate(seq):
+                r = api_run(ts, shared, mu, eps, sp, method, kw, shared=True)
+                rec["steps"].append((TAG.get(shared.probability_space, str(shared.probability_space)), shared.grid_data.copy()))
+                replay = dict(replay_base, method=method, kw=kw, sequence=[TAG[x] for x in seq], step=k)
+                if not r["ok"]:
+                    res.violations.append(Violation(
+                        f"shared-prior-sequence-raises:{method}:{name}",
+                        f"{method} step {k} ({sp}) of sequence {name} on one shared prior object raised {r['exc']}: {r['msg']}; "
+                        f"a fresh prior object gives a result (object tag after the step: {shared.probability_space})", replay))
+                    break
+                if not same_result(r, fresh[sp], method):
+                    res.violations.append(Violation(
+                        f"shared-prior-sequence-differs:{method}:{name}",
+                        f"{method} step {k} ({sp}) of sequence {name} on one shared prior object differs from the fresh-prior result", replay))
+                    break
+            rec["replay"] = dict(replay_base, method=method, kw=kw, sequence=rec["seq"])
+            seqrecs.append(rec)
+
+
+def sequence_text(seqrecs):
+    blocks = []
+    for i, rec in enumerate(seqrecs):
+        lines = [f"case {dc.EXTRA_BASE + i}", "op priorseq", f"tag {rec['tag0']}", f"nrows {rec['grid0'].shape[0]}"]
+        for k, row in enumerate(rec["grid0"]):
+            lines.append(f"row {k} " + " ".join(f2h(x) for x in row))
+        lines.append("seq " + " ".join(rec["seq"]))
+        lines.append("end")
+        blocks.append("\n".join(lines) + "\n")
+    return "".join(blocks)
+
+
+def sequence_correspondence(seqrecs, res, stats, lines_by_id=None):
+    """B: the prior object's tag and data after every run of a sequence vs the Lean state machine
+    (`runSeq`: force_probability_space at the start of every run)."""
+    if not seqrecs:
+        return
+    if lines_by_id is None:
+        lines_by_id = {}
+        dc.run_model([], sequence_text(seqrecs), lines_by_id)
+    out = {k - dc.EXTRA_BASE: (ln.split(None, 1)[1] if len(ln.split()) > 1 else "") for k, ln in lines_by_id.items()}
+    for i, rec in enumerate(seqrecs):
+        stats["prior_state_checks"] += 1
+        reply = out.get(i, "bad-op")
+        if reply.strip() == "bad-op":
+            res.corr_failures.append(Violation("prior-state-model-rejects", "Lean driver answered bad-op", rec["replay"], stage="B"))
+            continue
+        model_steps = [c.split() for c in reply.split(";")]
+        for k, (tag, grid) in enumerate(rec["steps"]):
+            if k >= len(model_steps):
+                break
+            mtag, mvals = model_steps[k][0], np.array([common.h2f(x) for x in model_steps[k][1:]])
+            flat = grid.ravel()
+            same_data = mvals.shape == flat.shape and all(
+                (a == b) or (np.isnan(a) and np.isnan(b)) or abs(a - b) <= 1e-12 * max(1.0, abs(a), abs(b))
+                for a, b in zip(flat, mvals))
+            if tag != mtag or not same_data:
+                res.corr_failures.append(Violation(
+                    f"prior-object-state-differs:{'tag' if tag != mtag else 'data'}",
+                    f"after step {k} of sequence {'->'.join(rec['seq'])} ({rec['replay']['method']}) the prior object is tagged "
+                    f"{tag!r} in the implementation, {mtag!r} in the model (force_probability_space at the start of a run)",
+                    dict(rec["replay"], step=k), stage="B"))
+                break
+
+
 def gen_input(rng, stats):
     import tsdate
     from .. import gen
@@ -213,10 +306,10 @@ def priors_from_replay(d, ts):
 
 def new_stats():
     return dict(raised={}, prior_failed={}, guard_tripped={}, methods={}, gens={}, maximization_ties=0,
-                trees={}, model_runs={}, compared=0)
+                trees={}, model_runs={}, compared=0, sequences={}, prior_state_checks=0, sequence_inputs=0)
 
 
-def oracle(ctx, n_cases, stream, res, stats, recs=None):
+def oracle(ctx, n_cases, stream, res, stats, recs=None, seqrecs=None, n_seq=0):
     rng = ctx.rng(stream)
     done = tries = 0
     while done < n_cases and tries < 6 * n_cases:
@@ -240,6 +333,9 @@ def oracle(ctx, n_cases, stream, res, stats, recs=None):
             kw = dict(outside_standardize=bool(rng.random() < 0.7), cache_inside=bool(rng.random() < 0.5))
         replay = make_replay(ts, pr, mu, eps, method, kw)
         good = compare_spaces(ts, pr, mu, eps, method, kw, replay, res, stats)
+        if seqrecs is not None and stats["sequence_inputs"] < n_seq:
+            stats["sequence_inputs"] += 1
+            sequence_oracle(ts, pr, mu, eps, dict(replay, kind="sequence"), res, stats, seqrecs)
         done += 1
         stats["compared"] += 1
         stats["methods"][method] = stats["methods"].get(method, 0) + 1
@@ -261,10 +357,10 @@ def oracle(ctx, n_cases, stream, res, stats, recs=None):
                     stats["raised"][type(e).__name__] = stats["raised"].get(type(e).__name__, 0) + 1
 
 
-def correspondence(recs, res, stats):
+def correspondence(recs, res, stats, extra_text="", extra_out=None):
     """B: generic passes with logOps / linOps (Float) vs the real runs; and model(log) vs model(lin)."""
     cases = [(r, "float") for r in recs]
-    outs = dc.run_model(cases)
+    outs = dc.run_model(cases, extra_text, extra_out)
     by_input = {}
     for (r, _), m in zip(cases, outs):
         stats["model_runs"][r["space"]] = stats["model_runs"].get(r["space"], 0) + 1
@@ -299,9 +395,11 @@ def run(ctx):
     res = Result()
     import tsdate  # noqa: F401
     stats = new_stats()
-    recs = []
-    oracle(ctx, ctx.n(100, 1500), 1, res, stats, recs)
-    correspondence(recs[: ctx.n(120, 600)], res, stats)
+    recs, seqrecs = [], []
+    oracle(ctx, ctx.n(100, 1500), 1, res, stats, recs, seqrecs, n_seq=ctx.n(12, 150))
+    extra = {}
+    correspondence(recs[: ctx.n(120, 600)], res, stats, sequence_text(seqrecs), extra)
+    sequence_correspondence(seqrecs, res, stats, extra)
     res.rule = ("msprime-simulated inputs (2-6 samples, 1-8 trees, polytomies) with tsdate's own lognormal/gamma prior grids "
                 "(3-8 quantiles), and random tree shapes with arbitrary non-negative prior rows (incl. zeros) on random grids; "
                 "eps in {0,1e-8,1e-6,1e-3}; inside_outside (outside_standardize, cache_inside) and maximization run in both "
@@ -315,7 +413,7 @@ def run(ctx):
 def search(ctx):
     res = Result()
     stats = new_stats()
-    oracle(ctx, ctx.n(20, 60), 3, res, stats, None)
+    oracle(ctx, ctx.n(20, 60), 3, res, stats, None, [], n_seq=ctx.n(5, 20))
     return res
 
 
@@ -327,6 +425,15 @@ def replay(ctx, payload):
     pr = priors_from_replay(d, ts)
     mu, eps = common.h2f(d["mu"]), common.h2f(d["eps"])
     res, stats = Result(), new_stats()
+    if d.get("kind") == "sequence" or "sequence" in d:
+        seqrecs = []
+        sequence_oracle(ts, pr, mu, eps, dict(d, kind="sequence"), res, stats, seqrecs)
+        sequence_correspondence(seqrecs, res, stats)
+        for rec in seqrecs:
+            print(rec["replay"]["method"], "->".join(rec["seq"]), "object tag after each step:", [t for t, _ in rec["steps"]])
+        for v in res.violations + res.corr_failures:
+            print(v.stage, v.kind, "-", v.what)
+        return not res.violations and not res.corr_failures
     print("guard:", linear_guard(ts, pr, mu, eps))
     for space in (dc.LIN, dc.LOG):
         a = api_run(ts, pr, mu, eps, space, d["method"], d["kw"])
